@@ -63,6 +63,7 @@ type c10Val struct {
 	Dyn    types.Type
 	Keys   []c10Val      // c10VMap: constant keys, values in Args
 	Lit    *ast.FuncLit  // c10VFunc
+	Pos    *c10TextPos   // the integer is a byte offset into a symbolic text (c10_interp_pos.go)
 	Fn     *ast.FuncDecl // c10VFunc: a named package-level function used as a value
 	Cap    c10Env        // c10VFunc: environment at the literal
 	Tag    string        // opaque sort key "elem|accessor" (order decided by c10Eval.rel)
@@ -156,7 +157,7 @@ func c10Pieces(v c10Val) ([]c10Piece, bool) {
 		if v.S == "" {
 			return nil, true
 		}
-		return []c10Piece{{Lit: v.S}}, true
+		return c10SplitGeneric(v.S), true
 	case c10VText:
 		return v.Pieces, true
 	}
@@ -179,11 +180,16 @@ func c10MkText(ps []c10Piece) c10Val {
 		out = append(out, p)
 	}
 	sym := false
+	var split []c10Piece
 	for _, p := range out {
 		if p.Num != nil {
 			sym = true
+			split = append(split, p)
+		} else {
+			split = append(split, c10SplitGeneric(p.Lit)...)
 		}
 	}
+	out = split
 	if !sym {
 		s := ""
 		for _, p := range out {
@@ -192,6 +198,29 @@ func c10MkText(ps []c10Piece) c10Val {
 		return c10StrVal(s)
 	}
 	return c10Val{K: c10VText, Pieces: out}
+}
+
+// c10SplitGeneric cuts a literal into plain chunks and generic atoms (the marker and the lower-case name after
+// it), so that a generic atom, whose real length is unknown, is always a piece of its own.
+func c10SplitGeneric(lit string) []c10Piece {
+	var out []c10Piece
+	for lit != "" {
+		i := strings.Index(lit, c10Generic)
+		if i < 0 {
+			out = append(out, c10Piece{Lit: lit})
+			break
+		}
+		if i > 0 {
+			out = append(out, c10Piece{Lit: lit[:i]})
+		}
+		j := i + len(c10Generic)
+		for j < len(lit) && lit[j] >= 'a' && lit[j] <= 'z' {
+			j++
+		}
+		out = append(out, c10Piece{Lit: lit[i:j]})
+		lit = lit[j:]
+	}
+	return out
 }
 
 func c10NumPiece(v c10Vec) c10Piece { return c10Piece{Num: &v} }
@@ -349,6 +378,7 @@ type c10Eval struct {
 
 	pan      string                    // set when the expression being evaluated panics (index out of range, failed assertion)
 	tables   map[types.Object]ast.Expr // read-only package-level tables (c10_interp_lit.go)
+	bldEsc   map[types.Object]bool     // builder variables whose address escapes (c10_interp_builder.go)
 	litStack []*ast.FuncLit            // function literals being interpreted
 	sorts    []c10SortEvent            // calls of package sort reached (c10_interp_sort.go)
 	fork     *c10Fork                  // non-nil while a statement-level evaluation explores the outcomes of inlined callees
@@ -491,6 +521,11 @@ func (ev *c10Eval) unknownOf(t types.Type, why string) c10Val {
 }
 
 func (ev *c10Eval) zeroOf(t types.Type) c10Val {
+	if c10IsBuilder(t) {
+		if _, isPtr := t.(*types.Pointer); !isPtr {
+			return c10StrVal("") // an empty strings.Builder / bytes.Buffer: the text written so far
+		}
+	}
 	if w, s, ok := ev.intType(t); ok {
 		return c10IntVal(c10ConstVec(0, w, s))
 	}
